@@ -33,6 +33,7 @@ type c13Case struct {
 	Desc       bool  `json:"descending_order,omitempty"`
 	Zero       int   `json:"zero_size_runners,omitempty"`     // mask over stateless (field-less) runner types Z1,Z2,Z3
 	ErrShape   int   `json:"err_shape,omitempty"`             // what kind of error value the failing runner returns (scen.Err*)
+	LateOrder  bool  `json:"order_known_after_init,omitempty"` // the runners' Order() answers 0 until their Init ran
 	AppDep     int   `json:"runners_depend_on_app,omitempty"` // runners hold the App itself: 1 = named to be created before it, 2 = after it
 }
 
@@ -143,6 +144,26 @@ func c13Gen(c *core.Ctx) func(yield func(c13Case) bool) {
 				return
 			}
 		}
+		{
+			stop := false
+			seqs(3, 11, func(s []int) bool {
+				for _, x := range s {
+					if c12Class(x) == 2 {
+						return true // unordered runners have no Order to compute
+					}
+				}
+				for _, d := range []bool{false, true} {
+					if !yield(c13Case{Seq: s, Fail: -1, Desc: d, LateOrder: true}) {
+						stop = true
+						return false
+					}
+				}
+				return true
+			})
+			if stop {
+				return
+			}
+		}
 		for dep := 1; dep <= 2; dep++ {
 			stop := false
 			seqs(2, 11, func(s []int) bool {
@@ -219,6 +240,10 @@ func c13Run(c *core.Ctx) {
 				part := scen.Part{Nm: names[i], O: c12Order(s), RT: rt, Fail: i == cs.Fail}
 				lazy := cs.LazyMask>>i&1 == 1
 				switch {
+				case cs.LateOrder && c12Class(s) == 0:
+					out = append(out, &scen.RunPI{Part: part})
+				case cs.LateOrder:
+					out = append(out, &scen.RunOI{Part: part})
 				case cs.AppDep != 0 && c12Class(s) == 0:
 					out = append(out, &c13AppRunP{RunP: scen.RunP{Part: part}, early: cs.AppDep == 1})
 				case cs.AppDep != 0 && c12Class(s) == 1:
@@ -293,6 +318,9 @@ func c13Run(c *core.Ctx) {
 		}
 		if cs.AppDep != 0 {
 			desc += fmt.Sprintf(" runners-hold-the-App=%d", cs.AppDep)
+		}
+		if cs.LateOrder {
+			desc += " (Order known after Init)"
 		}
 		if o.Panic != "" || o.Abort != "" {
 			c.Outcome("crash")
